@@ -152,6 +152,144 @@ def pubkeyVerify (args : List String) (obs : String) : Verdict :=
       { model := showBool r, spec }
   | _, _, _, _, _ => { model := "bad-arg" }
 
+/-! ### pubkey.hist — one `PublicKey` value under a history
+
+  `pubkey.hist pk=… n=<N> e<i>=<label> c<i>=<rsa|notrsa|bad> k<i>=<hex> s<i>=<hex> … okp=<i:j,…|none> steps=<…>`
+  `=> rf=ok|rf=err|set|v=<true|false|panic>@<e>.<k>.<s>,…`
+  Time stamps are the labels (a leading '-' is the past; the zero value "z" is the past). -/
+
+structure HistPkt where
+  label : String
+  cls : String
+  key : Bytes
+  sig : Bytes
+
+def parsePkts (args : List String) (n : Nat) : Option (List HistPkt) :=
+  (List.range n).mapM fun i => do
+    let l ← kv args s!"e{i}"
+    let c ← kv args s!"c{i}"
+    let k ← hexArg args s!"k{i}"
+    let g ← hexArg args s!"s{i}"
+    pure { label := l, cls := c, key := k, sig := g }
+
+def parsePairs (s : String) : List (Nat × Nat) :=
+  if s == "none" then [] else
+  (s.splitOn ",").filterMap fun t =>
+    match t.splitOn ":" with
+    | [a, b] => match a.toNat?, b.toNat? with
+      | some x, some y => some (x, y)
+      | _, _ => none
+    | _ => none
+
+def labelExpired (l : String) : Bool := l == "z" || l.startsWith "-"
+
+def firstIdx {α} (xs : List α) (p : α → Bool) : Option Nat :=
+  (xs.zipIdx.find? (fun (x, _) => p x)).map (·.2)
+
+/-- the identity of the current fields, printed like the harness prints it -/
+def identOf (pkts : List HistPkt) (v : PubKeyVal String) : String :=
+  let e := match firstIdx pkts (fun p => p.label == v.expiresAt) with | some i => toString i | none => "z"
+  let k := match v.pubKey with
+    | none => "n"
+    | some der => match firstIdx pkts (fun p => p.cls == "rsa" && p.key == der) with | some i => toString i | none => "?"
+  let s := match firstIdx pkts (fun p => p.sig == v.signature) with | some i => toString i | none => "z"
+  s!"{e}.{k}.{s}"
+
+def keyParseOf (p : HistPkt) : KeyParse :=
+  if p.cls == "rsa" then .rsa p.key else if p.cls == "notrsa" then .notRsa else .bad
+
+def parseStep (pkts : List HistPkt) (st : String) : Option (PubKeyStep String × String) :=
+  match st.splitOn ":" with
+  | ["v"] => some (.verify, "v")
+  | ["rf", "x"] => some (.readFrom none, "rf")
+  | ["rf", a] => do
+    let p ← a.toNat? >>= (pkts[·]?)
+    some (.readFrom (some { expiresAt := p.label, key := keyParseOf p, signature := p.sig }), "rf")
+  | ["se", a] => do let p ← a.toNat? >>= (pkts[·]?); some (.setExpiresAt p.label, "set")
+  | ["sk", "n"] => some (.setPubKey none, "set")
+  | ["sk", a] => do let p ← a.toNat? >>= (pkts[·]?); some (.setPubKey (some p.key), "set")
+  | ["ss", a] => do let p ← a.toNat? >>= (pkts[·]?); some (.setSignature p.sig, "set")
+  | _ => none
+
+def pubkeyHist (args : List String) (obs : String) : Verdict :=
+  match (kv args "n").bind String.toNat?, kv args "okp", kv args "steps" with
+  | some n, some okp, some stepsS =>
+    match parsePkts args n, (stepsS.splitOn ",").mapM (parseStep (pkts := (parsePkts args n).getD [])) with
+    | some pkts, some steps =>
+      let pairs := parsePairs okp
+      -- external calls: SHA-256 is the identity; RSA answers the harness's verdict for (text of key i, signature j)
+      let rsa : Unit → Bytes → Bytes → Bool := fun _ h s =>
+        pairs.any fun (i, j) =>
+          match pkts[i]?, pkts[j]? with
+          | some pi, some pj => pemText pi.key == .ok h && pj.sig == s
+          | _, _ => false
+      let v0 : PubKeyVal String := { expiresAt := "z", pubKey := none, signature := [] }
+      let (_, outs) := steps.foldl (init := (v0, ([] : List String))) fun (v, acc) (st, tag) =>
+        match st with
+        | .verify =>
+          let r := pubKeyVerifyNow (Key := Unit) (fun t => t) rsa () labelExpired v
+          (v, acc ++ [s!"v={showBool r}@{identOf pkts v}"])
+        | .readFrom p =>
+          let (v', ok) := pubKeyReadFrom v p
+          (v', acc ++ [if ok then "rf=ok" else "rf=err"])
+        | st => (pubKeyApply v st, acc ++ [tag])
+      let model := ",".intercalate outs
+      -- oracle, from the observation alone: a `true` needs current fields that are unexpired and a (key, signature)
+      -- pair for which RSA verification under the services key succeeds
+      let bad := (obs.splitOn ",").find? fun item =>
+        if item.startsWith "v=true@" then
+          match ((item.drop 7).toString).splitOn "." with
+          | [e, k, s] =>
+            match e.toNat?, k.toNat?, s.toNat? with
+            | some ei, some ki, some si =>
+              match pkts[ei]? with
+              | some pe => labelExpired pe.label || !(pairs.contains (ki, si))
+              | none => true
+            | _, _, _ => true
+          | _ => true
+        else false
+      { model, spec := bad.map fun item => s!"Verify accepted fields that do not verify now: {item}" }
+    | _, _ => { model := "bad-arg" }
+  | _, _, _ => { model := "bad-arg" }
+
+/-! ### auth.hs — the server side of the handshake
+
+  `auth.hs kseed= kbits= mode=<ok|badtoken|garbtok|garbsec|badid|short> http=<ok|fail|badjson> secret=<hex> key=<hex>`
+  `tok=<ok1|ok0|err> dec=<hex|err> sha1=<hex|-> client=<text> => ok|err|panic|hang [hash=<text>]` -/
+
+def authHs (args : List String) (obs : String) : Verdict :=
+  match kv args "mode", kv args "http", hexArg args "key", kv args "tok", kv args "dec" with
+  | some mode, some http, some key, some tok, some dec =>
+    let secret : Res Bytes := if dec == "err" then .err else match parseHex dec with | some b => .ok b | none => .err
+    let d := (hexArg args "sha1").getD []
+    let sha1 : Bytes → Bytes := fun x =>
+      match secret with
+      | .ok s => if x == s ++ key then d else []
+      | _ => []
+    let i : HandshakeIn := {
+      idOk := mode != "badid", scanOk := mode != "short",
+      token := if tok == "ok1" then .ok true else if tok == "ok0" then .ok false else .err,
+      secret := secret, httpOk := http == "ok" }
+    let (asked, r) := serverEncrypt sha1 key i
+    let model := (match r with | .ok _ => "ok" | .err => "err" | .panic => "panic") ++
+      (match asked with | some h => s!" hash={h}" | none => "")
+    -- oracle: whatever hash the server asked the session server about must be the Java rendering of
+    -- SHA-1("" ‖ the secret the client encrypted ‖ key), and equal to the client-side digest
+    let toks := obs.splitOn " "
+    let spec : Option String :=
+      match kv toks "hash" with
+      | none => none
+      | some h =>
+        if dec == "err" then none          -- the client chose no secret: the property compares nothing here
+        else if allZero d then none
+        else
+          let want := javaHex (toSigned d)
+          if h != want then some s!"server-side session hash is not Java's rendering for the client's secret: {want}"
+          else if kv args "client" != some h then some "server-side and client-side session hashes differ"
+          else none
+    { model, spec }
+  | _, _, _, _, _ => { model := "bad-arg" }
+
 def handle (op : String) (args : List String) (obs : String) : Option Verdict :=
   match op with
   | "uuid" => some (uuid args obs)
@@ -162,6 +300,8 @@ def handle (op : String) (args : List String) (obs : String) : Option Verdict :=
   | "pem.text" => some (pemTextOp args obs)
   | "pem.collide" => some (pemCollide args obs)
   | "lb.writes" => some (lbWrites args obs)
+  | "pubkey.hist" => some (pubkeyHist args obs)
+  | "auth.hs" => some (authHs args obs)
   | _ => none
 
 end Driver.C18
